@@ -2,8 +2,8 @@
 
 tbxlint/minterp.py interprets the syntax trees of flow::Action and the composites (virtual dispatch by the dynamic class of a record, constructors with their base
 initialisers, std::function values as closures / bind expressions, std::vector and std::map fields as sequences and dictionaries).  The event loop is a model: runNext()
-queues a callable and returns an id, cancel() removes it, timers are records the harness fires in deadline order.  Leaves are FunctionAction (an immediate result) and
-SleepAction (a result that arrives when its timer fires; wrapped in an inverting WrapperAction for a late failure; never fired for "never").  Trees are built through
+queues a callable and returns an id, cancel() removes it, timers are records the harness fires in deadline order.  Leaves are DummyAction (scripted by the harness: finish at once / later / never, block), FunctionAction (an immediate result) and
+SleepAction (a result that arrives when its timer fires).  Trees are built through
 the public API (constructors, addChild/setChild/setChildAs), run, and compared with a reference evaluator of the documented control flow.  Nothing of the repository is
 compiled or run."""
 import itertools
@@ -33,6 +33,7 @@ class World:
             'max': lambda it, f, st, a: max(a[0], a[1]) if len(a) == 2 and all(isinstance(x, int) for x in a) else None,
             'min': lambda it, f, st, a: min(a[0], a[1]) if len(a) == 2 and all(isinstance(x, int) for x in a) else None,
             'Variables::setParent': noop, 'now': lambda it, f, st, a: self.now,
+            'IsStartWith': lambda it, f, st, a: int((it.to_text(a[0]) or '').startswith(it.to_text(a[1]) or '\0')),
         })
         for c in ('TimerEvent', 'Event'):
             hooks[c + '::setCallback'] = self.h_t_setcb
@@ -62,7 +63,8 @@ class World:
         raise minterp._Abort()
 
     def h_new_timer(self, it, f, st, a):
-        t = {'__cls__': 'tbox::event::TimerEvent', '__open__': True, 'cb': 0, 'enabled': 0, 'interval': None, 'deadline': None}
+        t = {'__cls__': 'tbox::event::TimerEvent', '__open__': True, 'cb': 0, 'enabled': 0, 'interval': None, 'deadline': None,
+             'owner': 'sleep' if 'SleepAction' in (f.name or '') else 'timeout'}
         it._keep.append(t)
         self.timers.append(t)
         return it.ref(t)
@@ -118,8 +120,8 @@ class World:
             if self.it.faults:
                 return
 
-    def fire_next_timer(self):
-        live = [t for t in self.timers if t.get('enabled') and t.get('cb') not in (0, None)]
+    def fire_next_timer(self, owner='timeout'):
+        live = [t for t in self.timers if t.get('enabled') and t.get('cb') not in (0, None) and t.get('owner') == owner]
         if not live:
             return False
         t = min(live, key=lambda x: x['deadline'])
@@ -150,16 +152,23 @@ class Built:
         self.tick = 0
         self.pending = []       # (due, leaf index, ok)
         self.finals = {}
+        self.sleepers = {}
+        self.blocks = []
         self.root = self.build(spec)
         self.finished = []
         self.root['finish_cb_'] = lambda ok, why, trace: self.finished.append(int(bool(ok)))
+        self.root['block_cb_'] = lambda why, trace: self.blocks.append(1)
         for i, nd in enumerate(self.nodes):
             if 'final_cb_' in nd:
                 nd['final_cb_'] = lambda i=i: self.finals.__setitem__(i, self.finals.get(i, 0) + 1)
 
-    def reason(self):
+    def reason(self, message=None):
         r = self.w.it.new_record(NS + 'Action::Reason')
         r['code'] = 0
+        if message is not None:
+            nm = 'str:msg:' + message
+            self.w.it.mem.setdefault(nm, [ord(c) for c in message] + [0])
+            r['message'] = P(nm, 0)
         self.w.it._keep.append(r)
         return self.w.it.ref(r)
 
@@ -171,6 +180,33 @@ class Built:
             idx = len(self.leaves)
             self.leaves.append([rec, spec[1], 0])
             rec['start_cb_'] = lambda idx=idx: self.on_leaf_start(idx)
+            self.nodes.append(rec)
+            return rec
+        if kind == 'func':
+            idx = len(self.leaves)
+
+            def fn(idx=idx, ok=spec[1]):
+                self.starts.append(idx)
+                self.leaves[idx][2] += 1
+                return int(ok)
+            rec = w.new(NS + 'FunctionAction', [L, fn], pick=lambda g: g.params[1]['t'].replace('tbox::flow::FunctionAction::', '').strip() in ('Func &&',))
+            self.leaves.append([rec, [('now', spec[1])], 0])
+            self.nodes.append(rec)
+            return rec
+        if kind == 'sleep':
+            idx = len(self.leaves)
+            rec = w.new(NS + 'SleepAction', [L, spec[1]], pick=lambda g: 'milliseconds' in g.params[1]['t'])
+            self.leaves.append([rec, [('sleep', spec[1])], 0])
+            self.sleepers[id(rec)] = idx
+            self.nodes.append(rec)
+            return rec
+        if kind == 'switch':
+            rec = w.new(NS + 'SwitchAction', [L])
+            self.set_child_as(rec, self.build(spec[1]), 'switch')
+            for name, c in spec[2]:
+                self.set_child_as(rec, self.build(c), 'case:' + name)
+            if spec[3] is not None:
+                self.set_child_as(rec, self.build(spec[3]), 'default')
             self.nodes.append(rec)
             return rec
         if kind in ('seq', 'par'):
@@ -224,24 +260,66 @@ class Built:
         step = plan[min(runs, len(plan) - 1)]
         self.leaves[idx][2] += 1
         if step[0] == 'now':
-            self.w.call(rec, 'emitFinish', [int(step[1]), self.reason()])
+            self.w.call(rec, 'emitFinish', [int(step[1]), self.reason(step[2] if len(step) > 2 else None)])
         elif step[0] == 'later':
             self.pending.append((self.tick + step[2], idx, step[1], self.leaves[idx][2]))
+        elif step[0] == 'block':
+            # blocks after `delay`, and once resumed finishes after another `delay`
+            self.pending.append((self.tick + step[2], idx, ('block', step[1], step[2]), self.leaves[idx][2]))
 
     def underway(self):
         return [i for i, n in enumerate(self.nodes) if n.get('state_') in (1, 2)]
 
-    def step(self):
-        """deliver the next due leaf result; False when nothing is pending"""
-        live = [p for p in self.pending if self.leaves[p[1]][0].get('state_') in (1, 2) and self.leaves[p[1]][2] == p[3]]
-        self.pending = live
+    def next_event(self):
+        live = [p for p in self.pending if p[1] != -1 and self.leaves[p[1]][0].get('state_') in (1, 2) and self.leaves[p[1]][2] == p[3]]
+        self.pending = list(live)
+        # armed timers of sleep leaves are events too (the root's time-out timer is fired by the time-out scenario only)
+        for t in self.w.timers:
+            if t.get('enabled') and t.get('cb') not in (0, None) and t.get('owner') == 'sleep':
+                live.append((t['deadline'], -1, t, 0))
         if not live:
-            return False
-        nxt = min(live, key=lambda p: (p[0], p[1]))
-        self.pending.remove(nxt)
+            return None
+        return min(live, key=lambda p: (p[0], p[1]))
+
+    def fire(self, nxt, drain=True):
+        if nxt[1] != -1:
+            self.pending.remove(nxt)
         self.tick = max(self.tick, nxt[0]) + 1
-        self.w.call(self.leaves[nxt[1]][0], 'emitFinish', [int(nxt[2]), self.reason()])
-        self.w.drain()
+        self.w.now = self.tick
+        if nxt[1] == -1:
+            t = nxt[2]
+            t['enabled'] = 0
+            f0 = self.w.prog.fn1(NS + 'Action::finish')
+            self.w.it.invoke(f0, f0.stmts[0], t['cb'], [])
+        elif isinstance(nxt[2], tuple) and nxt[2][0] == 'block':
+            lf = self.leaves[nxt[1]][0]
+            if lf.get('state_') == 1:
+                self.w.call(lf, 'emitBlock', [self.reason()])
+                self.block_events = getattr(self, 'block_events', 0) + 1
+                self.w.drain()
+                if self.root.get('state_') == 2:
+                    running = [nd for nd in self.nodes if nd.get('state_') == 1]
+                    if running:
+                        self.block_problem = '%d action(s) keep running after a leaf has blocked the tree' % len(running)
+                    self.w.call(self.root, 'resume')
+                    self.w.drain()
+                elif self.root.get('state_') == 1:
+                    self.block_problem = 'a leaf blocks and the root keeps running'
+                if lf.get('state_') == 1:
+                    self.pending.append((self.tick + nxt[2][2], nxt[1], nxt[2][1], nxt[3]))
+                elif lf.get('state_') == 2:
+                    self.block_problem = getattr(self, 'block_problem', None) or 'the blocked leaf is not resumed by resume() of the root'
+        else:
+            self.w.call(self.leaves[nxt[1]][0], 'emitFinish', [int(nxt[2]), self.reason()])
+        if drain:
+            self.w.drain()
+
+    def step(self):
+        """deliver the next due event (a scripted leaf result, a block, the timer of a sleep leaf); False when nothing is pending"""
+        nxt = self.next_event()
+        if nxt is None:
+            return False
+        self.fire(nxt)
         return True
 
     def run(self, max_events=60, hook=None):
@@ -272,10 +350,12 @@ class Ref:
     def mk(self, spec, parent):
         n = {'spec': spec, 'kind': spec[0], 'parent': parent, 'state': 'idle', 'kids': [], 'i': 0, 'done': {}, 'gen': 0}
         k = spec[0]
-        if k == 'leaf':
+        if k in ('leaf', 'func', 'sleep'):
             n['idx'] = len(self.leaves)
             n['runs'] = 0
             self.leaves.append(n)
+        elif k == 'switch':
+            n['kids'] = [self.mk(spec[1], n)] + [self.mk(c, n) for _, c in spec[2]] + ([self.mk(spec[3], n)] if spec[3] is not None else [])
         elif k in ('seq', 'par'):
             n['kids'] = [self.mk(c, n) for c in spec[2]]
         elif k in ('wrap', 'loop'):
@@ -295,12 +375,22 @@ class Ref:
         n['state'] = 'running'
         n['gen'] += 1
         k = n['kind']
-        if k == 'leaf':
+        if k == 'func':
+            self.starts.append(n['idx'])
+            n['runs'] += 1
+            self.finish(n, n['spec'][1])
+        elif k == 'sleep':
+            n['runs'] += 1
+            self.pending.append((self.tick + n['spec'][1], n['idx'], 1, n['runs']))
+        elif k == 'switch':
+            self.start(n['kids'][0])
+        elif k == 'leaf':
             self.starts.append(n['idx'])
             plan = n['spec'][1]
             step = plan[min(n['runs'], len(plan) - 1)]
             n['runs'] += 1
             if step[0] == 'now':
+                n['msg'] = step[2] if len(step) > 2 else None
                 self.finish(n, step[1])
             elif step[0] == 'later':
                 self.pending.append((self.tick + step[2], n['idx'], step[1], n['runs']))
@@ -422,6 +512,24 @@ class Ref:
                     self.ifthen_next(p)
             else:
                 self.finish(p, ok)
+        elif k == 'switch':
+            if n is p['kids'][0]:
+                if not ok:
+                    self.finish(p, 0)
+                else:
+                    names = [nm for nm, _ in p['spec'][2]]
+                    msg = n.get('msg')
+                    tgt = None
+                    if msg is not None and msg.startswith('case:') and msg[5:] in names:
+                        tgt = p['kids'][1 + names.index(msg[5:])]
+                    elif p['spec'][3] is not None:
+                        tgt = p['kids'][-1]
+                    if tgt is None:
+                        self.finish(p, 0)
+                    else:
+                        self.start(tgt)
+            else:
+                self.finish(p, ok)
         elif k == 'loopif':
             if n is p['kids'][0]:
                 if ok:
@@ -518,6 +626,20 @@ def trees(full):
     for ip in ([A, A, B], [A, B], [B], [C, D]):
         for ep in ([A], [B], [C]):
             out.append(('loopif', leaf(*ip), leaf(*ep)))
+    # the provided leaves and the switch
+    for m in (0, 1, 2):
+        out.append(('seq', m, [('func', 1), ('func', 0), ('func', 1)]))
+        out.append(('seq', m, [('sleep', 2), ('func', 0), ('sleep', 1)]))
+        out.append(('par', m, [('sleep', 2), ('sleep', 1), leaf(D)]))
+        out.append(('par', m, [('func', 1), ('sleep', 1)]))
+    out.append(('wrap', 1, ('sleep', 1)))
+    out.append(('repeat', 2, 0, ('sleep', 1)))
+    out.append(('ifelse', ('func', 0), ('func', 1), ('sleep', 1)))
+    for pick in ('case:a', 'case:b', 'case:zz', None):
+        for ok in (1, 0):
+            for dflt in (None, leaf(C)):
+                out.append(('switch', leaf(('now', ok, pick) if pick else ('now', ok)), [('a', leaf(A)), ('b', leaf(D))], dflt))
+    out.append(('seq', 1, [('switch', leaf(('now', 1, 'case:a')), [('a', leaf(C))], None), leaf(A)]))
     # two levels
     s3 = (A, D, C)
     for m in (0, 1, 2):
@@ -538,6 +660,12 @@ def trees(full):
 
 def describe(spec):
     k = spec[0]
+    if k == 'func':
+        return 'Function(%s)' % ('ok' if spec[1] else 'fail')
+    if k == 'sleep':
+        return 'Sleep(%d)' % spec[1]
+    if k == 'switch':
+        return 'Switch[%s; %s%s]' % (describe(spec[1]), ', '.join('case %s: %s' % (nm, describe(c)) for nm, c in spec[2]), '; default: ' + describe(spec[3]) if spec[3] is not None else '')
     if k == 'leaf':
         return '/'.join('%s%s' % ({'now': '', 'later': 'later-', 'never': 'never'}[p[0]], ('ok' if p[1] else 'fail') if p[0] != 'never' else '') for p in spec[1])
     names = {'seq': ('Sequence', ('AllFinish', 'AnyFail', 'AnySucc')), 'par': ('Parallel', ('AllFinish', 'AnyFail', 'AnySucc')), 'wrap': ('Wrapper', ('Normal', 'Invert', 'AlwaySucc', 'AlwayFail')),
@@ -638,7 +766,7 @@ def r11(ctx, prog):
              'levels deep; repeat / loop / loop-if with per-run outcomes) are built through the public API on the syntax trees of flow::Action and the composites and run on a model of '
              'the loop (deferred notifications, cancellation).  For each tree: the root finishes exactly as the reference evaluator says (once, with that result, or never), the leaves are '
              'started in the reference order, nothing is left running, paused or queued at rest; stop() after every number of leaf events silences the tree (no finish callback, no '
-             'descendant under way, no leaf still waiting); reset() after the run makes every action idle and a second run repeats the first; pause() placed between a leaf\'s finish and the delivery of its notification, followed by resume(), does not change the outcome; a time-out on the root that fires while the tree is at work finishes it once, with failure, and leaves nothing below it running; pause() leaves nothing running and disarms the time-out, resume() re-arms it and the run ends as the undisturbed one; the final hook runs once per run and result() agrees with the callback' % len(ts), floor=1)
+             'descendant under way, no leaf still waiting); reset() after the run makes every action idle and a second run repeats the first; pause() placed between a leaf\'s finish and the delivery of its notification, followed by resume(), does not change the outcome; a time-out on the root that fires while the tree is at work finishes it once, with failure, and leaves nothing below it running; pause() leaves nothing running and disarms the time-out, resume() re-arms it and the run ends as the undisturbed one; the final hook runs once per run and result() agrees with the callback; a leaf that blocks pauses the whole tree, is reported once, and after resume() the run ends as the undisturbed one' % len(ts), floor=1)
     if not any(g.name == NS + 'DummyAction::onStart' for g in prog.funcs.values()):
         from tbxlint.facts import extract
         prog = extract('ALL')
@@ -646,7 +774,7 @@ def r11(ctx, prog):
     n = 0
     for spec in ts:
         n += 1
-        why = check_tree(prog, spec) or check_pause(prog, spec) or check_timeout(prog, spec) or check_plain_pause(prog, spec)
+        why = check_tree(prog, spec) or check_pause(prog, spec) or check_timeout(prog, spec) or check_plain_pause(prog, spec) or check_block(prog, spec)
         if why is not None:
             bad = (spec, why)
             break
@@ -669,14 +797,10 @@ def check_pause(prog, spec):
         w.drain()
         i = 0
         while not w.it.faults and i < 80:
-            live = [p for p in b.pending if b.leaves[p[1]][0].get('state_') in (1, 2) and b.leaves[p[1]][2] == p[3]]
-            b.pending = live
-            if not live:
+            nxt = b.next_event()
+            if nxt is None:
                 break
-            nxt = min(live, key=lambda p: (p[0], p[1]))
-            b.pending.remove(nxt)
-            b.tick = max(b.tick, nxt[0]) + 1
-            w.call(b.leaves[nxt[1]][0], 'emitFinish', [int(nxt[2]), b.reason()])
+            b.fire(nxt, drain=False)
             if i == k and b.root.get('state_') == 1:
                 w.call(b.root, 'pause')         # the notification of that finish is still in the loop's queue
                 w.drain()
@@ -712,14 +836,14 @@ def check_plain_pause(prog, spec):
                 bb.w.call(bb.root, 'pause')
                 bb.w.drain()
                 running = [nd for nd in bb.nodes if nd.get('state_') == 1]
-                armed = [t for t in bb.w.timers if t.get('enabled')]
+                armed = [t for t in bb.w.timers if t.get('enabled')]        # neither the time-out of the root nor the timer of a sleeping leaf may run on
                 if running:
                     done['bad'] = 'after pause() %d action(s) of the tree are still running' % len(running)
                 elif armed:
                     done['bad'] = 'after pause() the time-out timer of the root is still armed'
                 bb.w.call(bb.root, 'resume')
                 bb.w.drain()
-                if bb.root.get('state_') == 1 and not [t for t in bb.w.timers if t.get('enabled')]:
+                if bb.root.get('state_') == 1 and not [t for t in bb.w.timers if t.get('enabled') and t.get('owner') == 'timeout']:
                     done['bad'] = done.get('bad') or 'after resume() the time-out timer of the root is not armed again'
         b.run(hook=hook)
         if w.it.faults:
@@ -741,7 +865,7 @@ def check_timeout(prog, spec):
     if w.it.faults:
         return 'with a time-out set: %s' % w.it.faults[0]
     if b.finished:
-        if [t for t in w.timers if t.get('enabled')]:
+        if [t for t in w.timers if t.get('enabled') and t.get('owner') == 'timeout']:
             return 'the root finished at once and its time-out timer is still armed'
         return None
     if not w.fire_next_timer():
@@ -757,4 +881,61 @@ def check_timeout(prog, spec):
         return 'the root has finished by its time-out and a leaf below it is still waiting to deliver its result'
     if len(b.finished) != 1:
         return 'after the time-out the finish callback is invoked again'
+    return None
+
+
+def with_block(spec):
+    """the same tree with its first 'later' leaf turned into a leaf that blocks first and finishes after being resumed; None when there is no such leaf"""
+    done = [False]
+
+    def tr(sp):
+        if sp is None:
+            return None
+        k = sp[0]
+        if k == 'leaf':
+            if not done[0] and sp[1] and sp[1][0][0] == 'later' and len(sp[1]) == 1:
+                done[0] = True
+                return ('leaf', [('block', sp[1][0][1], sp[1][0][2])])
+            return sp
+        if k in ('func', 'sleep'):
+            return sp
+        if k in ('seq', 'par'):
+            return (k, sp[1], [tr(c) for c in sp[2]])
+        if k in ('wrap', 'loop'):
+            return (k, sp[1], tr(sp[2]))
+        if k == 'repeat':
+            return (k, sp[1], sp[2], tr(sp[3]))
+        if k == 'ifelse':
+            return (k, tr(sp[1]), tr(sp[2]), tr(sp[3]))
+        if k == 'ifthen':
+            return (k, [(tr(a), tr(b)) for a, b in sp[1]])
+        if k == 'loopif':
+            return (k, tr(sp[1]), tr(sp[2]))
+        if k == 'switch':
+            return (k, tr(sp[1]), [(nm, tr(c)) for nm, c in sp[2]], tr(sp[3]))
+        return sp
+    out = tr(spec)
+    return out if done[0] else None
+
+
+def check_block(prog, spec):
+    """a leaf that blocks: the whole tree pauses and the root's block callback runs; resume() of the root continues the run, which ends as the undisturbed one"""
+    bs = with_block(spec)
+    if bs is None:
+        return None
+    ref = Ref(spec)
+    ref.run()
+    w = World(prog)
+    b = Built(w, bs)
+    b.run()
+    if w.it.faults:
+        return 'with a leaf that blocks before it finishes: %s' % w.it.faults[0]
+    if getattr(b, 'block_problem', None):
+        return b.block_problem
+    if b.finished != ref.finished:
+        return 'with a leaf that blocks and is resumed, the root finishes %s where the undisturbed run finishes %s' % (fin(b.finished), fin(ref.finished))
+    if b.finished and b.underway():
+        return 'after a block/resume the root has finished and %d descendant(s) are still running or paused' % len(b.underway())
+    if len(b.blocks) != getattr(b, 'block_events', 0):
+        return '%d block(s) of a leaf are reported %d time(s) by the root' % (getattr(b, 'block_events', 0), len(b.blocks))
     return None
